@@ -349,7 +349,15 @@ func findInlineCands(p *Prog, res *canonResult) []*inlineCand {
 			res.Skipped = append(res.Skipped, f.Name+": "+why)
 		}
 		refs := p.Refs(f.Name)
-		if len(refs) == 0 || len(refs) > maxInlineSites {
+		limit := maxInlineSites
+		if f.Body != nil && len(f.Body.List) == 1 {
+			// a predicate whose body is one `return <expr>` is substituted as an expression: cheap at any number of
+			// sites (an extracted range test used by every validator, say)
+			if r, ok := f.Body.List[0].(*ast.ReturnStmt); ok && len(r.Results) == 1 {
+				limit = 16
+			}
+		}
+		if len(refs) == 0 || len(refs) > limit {
 			continue
 		}
 		allCalls := true
